@@ -59,6 +59,46 @@ def invalid_forms(x):
     yield ("between", x, True, -1, True)       # type error is reported before value error
 
 
+def e1_cases(tier):
+    """symbolic bounds and greediness: the parse of the emitted text must be REPEAT(n, m, greedy|lazy, operand) for every (n, m, g)"""
+    from vlib.symx import engine
+    hi = 6 if tier == "quick" else 99
+    cs = []
+    rng2 = "-2 <= n and n <= %d and (m is None or (-2 <= m and m <= %d))" % (hi, hi)
+    rng1 = "-2 <= n and n <= %d" % hi
+    operands = [("'ab'", "ptree('ab')", True), ("'a'", "ptree('a')", True), ("AnyLetter()", "ptree('[a-zA-Z]')", True),
+                ("Either('a', 'bc')", "ptree('(?:a|bc)')", True), ("Pregex('')", None, True), ("MatchAtStart('a')", "ptree(chr(92) + 'Aa')", False)]
+    if tier == "quick":
+        operands = operands[:1] + operands[3:]
+    for osrc, body, rep in operands:
+        forms = [("AtLeastAtMost(%s, n, m, g)" % osrc, "n", "m", "g", [("n", "int"), ("m", "Opt[int]"), ("g", "bool")], rng2),
+                 ("Pregex(%s).at_least_at_most(n, m, g)" % osrc if osrc.startswith("'") else "%s.at_least_at_most(n, m, g)" % osrc, "n", "m", "g",
+                  [("n", "int"), ("m", "Opt[int]"), ("g", "bool")], rng2),
+                 ("AtLeast(%s, n, g)" % osrc, "n", "None", "g", [("n", "int"), ("g", "bool")], rng1),
+                 ("AtMost(%s, n, g)" % osrc, "0", "n", "g", [("n", "Opt[int]"), ("g", "bool")], "n is None or (-2 <= n and n <= %d)" % hi),
+                 ("Exactly(%s, n)" % osrc, "n", "n", "True", [("n", "int")], rng1),
+                 ("Pregex(%s) * n" % osrc if osrc.startswith("'") else "%s * n" % osrc, "n", "n", "True", [("n", "int")], rng1),
+                 ("n * Pregex(%s)" % osrc if osrc.startswith("'") else "n * %s" % osrc, "n", "n", "True", [("n", "int")], rng1)]
+        if tier == "quick" and osrc != "'ab'":
+            forms = forms[:1] + forms[4:5]
+        for call, en, em, eg, params, pre in forms:
+            lines = ["N, M, G = %s, %s, %s" % (en, em, eg),
+                     "bad = bad_bounds(N if N is not None else 0, M)" if "AtMost" in call else "bad = bad_bounds(N, M)",
+                     "try:", "    p = %s" % call,
+                     "except InvalidArgumentValueException:", "    return bad"]
+            if not rep:
+                lines += ["except CannotBeRepeatedException:", "    return (not bad) and (M is None or M > 1)"]
+            lines += ["if bad:", "    return False"]
+            if body is None:
+                lines += ["return str(p) == ''"]
+            elif not rep:
+                lines += ["if M is None or M > 1:", "    return False", "return ptree(str(p)) == quant_tree(N, M, G, %s)" % body]
+            else:
+                lines += ["return ptree(str(p)) == quant_tree(N, M, G, %s)" % body]
+            cs.append(engine.raw_case("\n".join(lines), params, [pre], "%s == REPEAT(n, m, greedy) for all bounds in [-2, %d] / None" % (call, hi)))
+    return cs
+
+
 def task_prog(e, Lmax):
     return progs.check_program(e, Lmax, mode="C04")
 
@@ -75,10 +115,17 @@ def run(tier):
     ps = progs.dedupe(ps)
     Lmax = 6 if tier == "quick" else 8
     run.add(common.run_tasks(__name__, [("task_prog", (e, Lmax)) for e in ps], progress=2000))
+    from vlib.symx import engine
+    cases = e1_cases(tier)
+    outs = engine.run_cases(cases, per_condition_timeout=300 if tier == "quick" else 2400)
+    run.add(engine.to_results(cases, outs))
+    run.info = {"crosshair_harnesses": len(cases), "crosshair_paths_explored": sum(r.get("paths", 0) for r in run.results)}
     run.triage(REGIONS)
     run.bounds = {"programs": "%d quantifier applications: %d operands x all 7 quantifiers, bounds 0..%d/None, both greediness; plus invalid bounds "
                   "(negative, bool, float, str, None, list, inverted)" % (len(ps), len(operands(tier)), 3 if tier == "quick" else 4),
-                  "text_length": "<= %d" % Lmax, "spellings": "class, method, * operator (both sides)"}
+                  "text_length": "<= %d" % Lmax, "spellings": "class, method, * operator (both sides)",
+                  "E1": "%d harnesses with SYMBOLIC bounds n, m in [-2, %d] or None and symbolic greediness: parse(emitted) == REPEAT(n, m, greedy|lazy, operand), "
+                        "InvalidArgumentValueException iff negative/inverted, CannotBeRepeatedException iff bound above one on a non-repeatable operand" % (len(cases), 6 if tier == "quick" else 99)}
     run.assumptions = ["reference: (?:operand){n,m} with lazy suffix, Empty operand or m == 0 -> empty pattern, documented exception classes "
                        "(type before value; CannotBeRepeatedException only for bounds above one on the 7 non-repeatable constructors)",
                        "bounds above %d are covered by the symbolic-bound harnesses of the E1 engine when present" % (3 if tier == "quick" else 4)]
